@@ -254,6 +254,16 @@ def diagnose(c, kw, x, o, ctx, depth=0):
     """(key shape, what, replay data) for a failing round trip of instance x = c(**kw)."""
     fields = {fd["name"]: fd["field"] for fd in c["fields"]}
     src = python_src(c, kw, ctx, o["compact"])
+    # 0. root cause F17, wherever it sits in the instance: a REQUIRED field whose (valid) value is None is dropped by
+    #    the serializer, and the constructor then misses a required argument
+    if o["stage"] == "deser-raises" and o["exn"] in ("TypeError", "ValueError") and "required" in (o.get("detail") or ""):
+        for cn, fn in X.required_none_fields(x):
+            if repr(fn) in o["detail"]:
+                return ("C05/deser-raises:TypeError/required-field-holding-None",
+                        "class %s: the required field %r holds None; the serializer drops it and deserialization fails: %s" % (
+                            cn, fn, o.get("detail", "")),
+                        {"kind": "class", "ast": c, "kw": kw, "compact": o["compact"], "stage": o["stage"], "exn": o["exn"],
+                         "python": src})
     # 1. a field that fails on its own (preferably the way the instance fails)
     hits = []
     for k, v in kw:
